@@ -46,8 +46,8 @@ T = {
  "C13": ("exploration", "cmd+session", "wire-grammar monitor for list framing + token-pairing monitor through the client",
          "Lists of 1-50 raw commands compared byte-wise with individually rendered lines; typed tuples of every arity 1-8 and vectors executed against the simulated server whose replies carry a token of the command's own argument.",
          "Simulated server."),
- "C14": ("exploration", "typed", "reference-decode monitor over abstract song listings",
-         "Random listings with interleaved directory/playlist entries, repeated tags, Time/duration in either order, through all six listing commands, both feature builds.",
+ "C14": ("exploration", "typed+session", "reference-decode monitor over abstract song listings (captured replies and through the real client)",
+         "Random listings with interleaved directory/playlist entries, repeated tags, Time/duration in either order, through all six listing commands, both feature builds; every 8th case through the real client against the simulated server, after a failed multi-read command list and after the re-idle window.",
          "Scalar attributes not repeated within a song; URLs non-empty."),
  "C15": ("exploration", "cmd", "per-command expectation table (from the MPD protocol reference) applied after tokenisation",
          "Every constructor path on an exhaustive boundary grid of integers/ranges/durations/enums; arguments compared semantically (range sets, ms rounding, clamping).",
@@ -102,7 +102,7 @@ m = {
    {"name": "wire", "path": "harness/src/sim/wirerun.rs", "serves_properties": ["C02", "C03", "C09", "C10", "C18", "C19"], "kind_free_text": "real Connection/AsyncConnection over dictated-read transports; reference encoder/decoder"},
    {"name": "cmd", "path": "harness/src/refmodel/tokenizer.rs", "serves_properties": ["C06", "C07", "C11", "C13", "C15", "C20"], "kind_free_text": "bytes written by Connection::send through ports of MPD's tokenizer and filter parser"},
    {"name": "typed", "path": "harness/src/props/typed.rs", "serves_properties": ["C12", "C14", "C16"], "kind_free_text": "frames produced by the real parser fed to typed conversions; default and chrono builds"},
-   {"name": "session", "path": "harness/src/sim/session.rs", "serves_properties": ["C01", "C04", "C05", "C08", "C13", "C17", "C18", "C20"], "kind_free_text": "real tokio client vs simulated MPD server on a paused-clock runtime with seeded select!, boundary event log, offline history checkers"},
+   {"name": "session", "path": "harness/src/sim/session.rs", "serves_properties": ["C01", "C04", "C05", "C08", "C13", "C14", "C17", "C18", "C20"], "kind_free_text": "real tokio client vs simulated MPD server on a paused-clock runtime with seeded select!, boundary event log, offline history checkers"},
  ],
  "checks": checks,
  "not_applicable": na,
